@@ -138,7 +138,7 @@ macro_rules! sealed_float {
             fn to_float_kind(self, dst_frac_bits: u32, dst_int_bits: u32) -> FloatKind {
                 let prec = Self::PREC as i32;
 
-                let (neg, exp, mut mantissa) = self.parts();
+                let (neg, mut exp, mut mantissa) = self.parts();
                 if exp > Self::EXP_MAX {
                     if mantissa == 0 {
                         return FloatKind::Infinite { neg };
@@ -149,6 +149,9 @@ macro_rules! sealed_float {
                 // if not subnormal, add implicit bit
                 if exp >= Self::EXP_MIN {
                     mantissa |= 1 << (prec - 1);
+                } else {
+                    // subnormals have the same scale as the smallest normal binade
+                    exp = Self::EXP_MIN;
                 }
                 if mantissa == 0 {
                     let conv = ToFixedHelper {
